@@ -64,6 +64,8 @@ class Profile:
         self.scoped_uses = True
         self.p_scoped = 0.2
         self.special_types = True
+        self.typedef_of_enumerated = False   # typedefs whose arguments repeat an enumerated instantiation (instantiator checks only)
+        self.member_param_values = False     # class instantiation values spelled like a member's own template parameter
         self.same_name_values = False  # instantiation values with one unqualified name in two namespaces (instantiator checks only)
         self.layout_defaults = False   # defaults with inner runs of blanks / line breaks (parser checks only)
         self.__dict__.update(kw)
@@ -363,6 +365,16 @@ class Gen:
             base = ('bt', self.templated_type(2, tp)[:4] + (False, ''))
         self.class_member_names = {'method': [], 'static': []}
         members = [self.member(name, tp) for _ in range(r.randint(0, self.p.max_members))]
+        if self.p.member_param_values and t is not None:
+            inner = [n for m in members if m[0] in ('ctor', 'method', 'static') and m[1] is not None for n in m[1][1]]
+            lists = [l for l in t[2] if l]
+            if inner and lists and r.random() < 0.5:
+                u = r.choice(inner)
+                v = r.choice([('tn', [], u, []), ('tn', ['demo'], u, []), ('tn', ['std'], 'vector', [('tn', [], u, [])])])
+                l = r.choice(lists)
+                if iname(v) not in [iname(x) for x in l]:
+                    l.append(v)
+                    self.count('class_value_spelled_like_member_parameter')
         self.count('class')
         return ('class', t, r.random() < 0.25, name, base, members)
 
@@ -458,6 +470,16 @@ class Gen:
                 name = tgt[3] if kind == 'class' else tgt[2]
                 nargs = len(tgt[1][1])
             params = [self.plain_type() if r.random() < 0.7 else self.templated_type(1) for _ in range(nargs)]
+            if self.p.typedef_of_enumerated and kind != 'fwd' and r.random() < 0.4:
+                # the arguments of one of the template's own enumerated instantiations
+                lists = tgt[1][2]
+                simple = [[v for v in l if not v[3] and v[2][0].isalpha()] for l in lists]
+                if lists and all(simple):
+                    params = []
+                    for l in simple:
+                        v = r.choice(l)
+                        params.append(('ty', ('tn', list(v[1]), v[2], []), False, '', v[2] in BASIC and not v[1]))
+                    self.count('typedef_of_enumerated')
             res.append(('typedef', ('tt', [], name, params, False, ''), self.fresh(used, PLAIN_IDS + ['Alias', 'TD'])))
         return res
 
